@@ -10,7 +10,7 @@ CLAIM = ("Decided per explored history by an executable oracle defined in Coq (O
          "not finished: partial.")
 THEOREMS = ["C18_tiles_sound"]
 TRUSTED = ["modelled, not verified: Unix semantics of rename/unlink with an open file (inode model), BufWriter flush-on-drop"]
-ASSUMPTIONS = ["synchronous write modes; reset onto the same path without append truncates (documented) and is not generated",
+ASSUMPTIONS = ["synchronous write modes; a reset onto the same path without append truncates (documented) and is not generated - with append it is",
                "records carry distinct payloads, so a tiling is unambiguous"]
 RULE = ("histories mixing writes, flushes, external rename/remove of the current file, reopen_output, reset_flw to another basename / "
         "discriminant / rotation setting, triggers; Direct and BufferDontFlush; with and without rotation; non-trivial = at least one "
@@ -26,6 +26,7 @@ def gen(rng, tier):
     ops = ["B:" + cfg.token()]
     n = 0
     moved = 0
+    used = {cur}       # the paths written to so far: a reset onto one of them without append truncates it (documented)
     for _ in range(rng.randint(2, 10 if tier == "quick" else 16)):
         r = rng.random()
         if r < 0.5:
@@ -47,11 +48,23 @@ def gen(rng, tier):
                 ops.append("R")
         elif r < 0.86:
             rot2 = rng.random() < 0.5
-            cfg = g.Cfg(base=rng.choice([b"b", b"c", b"a2"]) + b"%d" % moved, disc=rng.choice([None, b"x"]),
-                        crit=("s%d" % rng.choice([6, 40])) if rot2 else None, naming=rng.choice(["num", "ts"]), cap=cap,
-                        append=rng.random() < 0.5)
+            if rng.random() < 0.35:
+                # the same file specification with other rotation settings: another path (no rotation <-> rotation), or the
+                # same current file under another criterion / naming (then with append: without it the reset truncates, as documented)
+                old_rot = cfg.crit is not None
+                rot2 = (not old_rot) if rng.random() < 0.6 else old_rot
+                new_crit = ("s%d" % rng.choice([c for c in (6, 12, 40, 90) if "s%d" % c != cfg.crit])) if rot2 else None
+                cfg = g.Cfg(base=cfg.base, disc=cfg.disc, crit=new_crit, naming=rng.choice(["num", "ts"]), cap=cap,
+                            append=rng.random() < 0.5)
+                if (cfg.name(b"rCURRENT") if rot2 else cfg.name(b"")) in used:
+                    cfg.append = True
+            else:
+                cfg = g.Cfg(base=rng.choice([b"b", b"c", b"a2"]) + b"%d" % moved, disc=rng.choice([None, b"x"]),
+                            crit=("s%d" % rng.choice([6, 40])) if rot2 else None, naming=rng.choice(["num", "ts"]), cap=cap,
+                            append=rng.random() < 0.5)
             moved += 1
             cur = cfg.name(b"rCURRENT") if rot2 else cfg.name(b"")
+            used.add(cur)
             ops.append("X:" + cfg.token())
         elif r < 0.93 and cfg.crit:
             ops.append("T")
